@@ -51,7 +51,7 @@ ASSUMPTIONS = [
     "positive' the tip / half-peak / value comparisons are reported under C14.swap_pos_uninverted (known finding), "
     "while peak, trough, ordering, recovery index and the three laws keep their own kinds on those rows",
 ]
-BUDGET = {"quick": 3000, "thorough": 90000}
+BUDGET = {"quick": 2000, "thorough": 90000}
 # one case costs 80-200 ms (3 + up to 7 calls of ~13 ms each): no shrinking in the quick tier (the driver keeps the
 # smallest failing case over the 16 shards); the thorough tier shrinks, bounded by the wall cap
 SHRINK = {"quick": False, "thorough": True}
